@@ -13,7 +13,7 @@ def main(path):
         nvh(['matcher-one', '--input', path, '--out', out])
         env = {k: '0' for k in ['C01', 'C02', 'C03', 'C04', 'C05', 'C10']}
         env[prop] = '1'
-        env.update({'CHARDB': chardb(), 'NAIVEMAX': '110000', 'TRACE': out})
+        env.update({'CHARDB': chardb(), 'NAIVEMAX': '110000', 'NAIVESTRIDE': '1', 'TRACE': out})
         rc, o = tlc('MatcherTrace.tla', env=env, workers=1, timeout=600)
         if tlc_failed(rc, o):
             die_tool('replay: ' + o[-1500:])
